@@ -58,11 +58,41 @@ func (x *Exec) resolve(st *State, c *ssa.CallCommon, depth int) callTarget {
 	if k := cs.Funcs[name]; k != nil {
 		return callTarget{kind: "contract", contract: k, name: name}
 	}
+	// contract on the struct field the func value is loaded from: "functype <pkg>.<Type>.<field>"
+	// (generic types by their origin name)
+	if ld, ok := c.Value.(*ssa.UnOp); ok && ld.Op == token.MUL {
+		if fa, ok := ld.X.(*ssa.FieldAddr); ok {
+			if pt, ok := fa.X.Type().Underlying().(*types.Pointer); ok {
+				if nt, ok := pt.Elem().(*types.Named); ok && nt.Obj().Pkg() != nil {
+					if stt, ok := nt.Underlying().(*types.Struct); ok {
+						fname := nt.Obj().Pkg().Path() + "." + nt.Obj().Name() + "." + stt.Field(fa.Field).Name()
+						if k := cs.Funcs[fname]; k != nil {
+							return callTarget{kind: "contract", contract: k, name: fname}
+						}
+					}
+				}
+			}
+		}
+	}
+	// contract on a func-typed parameter of the enclosing function: "functype <pkg>.<Func>#<param>"
+	if pv, ok := c.Value.(*ssa.Parameter); ok && pv.Parent() != nil {
+		f := pv.Parent()
+		if o := f.Origin(); o != nil {
+			f = o
+		}
+		pname := funcFullName(f) + "#" + pv.Name()
+		if k := cs.Funcs[pname]; k != nil {
+			return callTarget{kind: "contract", contract: k, name: pname}
+		}
+	}
 	return callTarget{kind: "unknown", name: name}
 }
 
 func (x *Exec) resolveFn(f *ssa.Function, depth int) callTarget {
 	name := funcFullName(f)
+	if k := x.eng.cs.Funcs[name+"@"+x.fx.pkgPath()]; k != nil {
+		return callTarget{kind: "contract", contract: k, fn: f, name: name}
+	}
 	if k := x.eng.cs.Funcs[name]; k != nil {
 		return callTarget{kind: "contract", contract: k, fn: f, name: name}
 	}
@@ -78,7 +108,16 @@ func (x *Exec) resolveFn(f *ssa.Function, depth int) callTarget {
 }
 
 func (x *Exec) inlinable(f *ssa.Function, depth int) bool {
-	if len(f.Blocks) == 0 || depth >= 3 || f == x.fx.fn {
+	return inlinableFn(f, depth, x.fx.fn)
+}
+
+func inlinableFn(f *ssa.Function, depth int, self *ssa.Function) bool {
+	if len(f.Blocks) == 0 || depth >= 3 || f == self {
+		return false
+	}
+	if self != nil && self.Name() == "init" && self.Synthetic != "" && len(f.Blocks) > 1 {
+		// package initialisers are long straight-line functions: inlining a branching callee would
+		// multiply every later obligation by its paths (the callee is verified on its own)
 		return false
 	}
 	// only functions of the repository itself are inlined; library code needs an extern contract
@@ -397,6 +436,7 @@ func (x *Exec) call(st *State, fn *ssa.Function, ins ssa.Value, c *ssa.CallCommo
 		x.frameCheck(st, insI, "*", "", "", "the whole heap (unknown callee "+shortName(t.name)+")")
 	}
 	st.havocAll(t.name)
+	x.assumeGlobalInv(st)
 	res := st.fresh(c.Signature().Results(), "ret:"+shortName(t.name))
 	if c.Signature().Results().Len() == 1 {
 		res = res.Fs[0]
@@ -506,6 +546,20 @@ func (x *Exec) applyContract(st *State, ins ssa.Instruction, t callTarget, c *ss
 		for _, cj := range x.eng.cs.goals(r.E) {
 			n++
 			g := sc.evalBool(cj)
+			if r.Tag == "objinv" && k.Pkg != "" && x.fx.pkgPath() != k.Pkg {
+				// object invariant of a type whose fields are unexported: code outside the declaring
+				// package cannot break it, so it is not re-proved at foreign call sites (the declaring
+				// package's constructor establishes it and each of its methods preserves it: those are
+				// obligations of the functions listed under contract; see objinvCheck)
+				x.eng.mu.Lock()
+				if x.eng.objInvUsed == nil {
+					x.eng.objInvUsed = map[string]*FuncContract{}
+				}
+				x.eng.objInvUsed[t.name+": "+cj.String()] = k
+				x.eng.mu.Unlock()
+				st.assume(g)
+				continue
+			}
 			if !x.eng.isQuiet(st) {
 				x.eng.oblige(x.fx, st, "pre", x.fx.siteKey(ins, fmt.Sprintf("%s#%d", shortName(t.name), n)), g, "precondition of "+t.name+": "+cj.String(), ins.Pos())
 			}
@@ -533,6 +587,8 @@ func (x *Exec) applyContract(st *State, ins ssa.Instruction, t callTarget, c *ss
 	if !k.HasMod {
 		x.frameCheck(st, ins, "*", "", "", "the whole heap (callee "+shortName(t.name)+" has no modifies clause)")
 		st.havocAll(t.name)
+		x.assumeGlobalInv(st)
+	x.assumeGlobalInv(st)
 	} else {
 		x.curCallee = t.fn
 		for _, loc := range k.Modifies {
@@ -595,6 +651,7 @@ func (x *Exec) havocLoc(st *State, sc *SpecCtx, loc string) {
 	loc = strings.TrimSpace(loc)
 	if loc == "heap" {
 		st.havocAll("modifies heap")
+		x.assumeGlobalInv(st)
 		return
 	}
 	if isWorld(loc) {
@@ -622,6 +679,7 @@ func (x *Exec) havocLoc(st *State, sc *SpecCtx, loc string) {
 			}
 		}
 		st.havocWorld(keepPrefixes)
+		x.assumeGlobalInv(st)
 		return
 	}
 	if strings.HasPrefix(loc, "ghost ") {
@@ -675,6 +733,7 @@ func (x *Exec) havocLoc(st *State, sc *SpecCtx, loc string) {
 			}
 		}
 		st.havocAll("modifies " + loc)
+		x.assumeGlobalInv(st)
 		return
 	}
 	if strings.HasPrefix(loc, "global ") {
@@ -860,7 +919,12 @@ func (x *Exec) calleeFrame(st *State, ins ssa.Instruction, sc *SpecCtx, loc stri
 	loc = strings.TrimSpace(loc)
 	switch {
 	case loc == "heap" || isWorld(loc):
-		x.frameCheck(st, ins, "*", "", "", "the whole heap (callee modifies heap)")
+		// "world except A, B" of the callee fits into "world except A" of the caller
+		var ex []string
+		for _, p := range worldExcept(loc) {
+			ex = append(ex, x.typePrefix(p))
+		}
+		x.frameCheck(st, ins, "*world:"+strings.Join(ex, ","), "", "", "the whole heap (callee modifies heap)")
 	case strings.HasPrefix(loc, "ghost "):
 		g := strings.TrimSpace(strings.TrimPrefix(loc, "ghost "))
 		root := ""
@@ -1471,6 +1535,19 @@ func maxConstIndex(fv *ssa.FreeVar) int {
 		return max
 	}
 	for _, r := range *refs {
+		// captured again by a nested closure: its uses count too
+		if mc, ok := r.(*ssa.MakeClosure); ok {
+			if inner, ok := mc.Fn.(*ssa.Function); ok {
+				for i, b := range mc.Bindings {
+					if b == ssa.Value(fv) && i < len(inner.FreeVars) {
+						if m := maxConstIndex(inner.FreeVars[i]); m > max {
+							max = m
+						}
+					}
+				}
+			}
+			continue
+		}
 		ld, ok := r.(*ssa.UnOp)
 		if !ok || ld.Op != token.MUL || ld.Referrers() == nil {
 			continue
@@ -1535,10 +1612,27 @@ func (e *Engine) autoCands(f *ssa.Function) []*autoCand {
 		case *types.Signature, *types.Pointer, *types.Map, *types.Interface:
 			add(fmt.Sprintf("*%s != nil", n))
 		case *types.Basic:
+			if u.Info()&types.IsString != 0 {
+				add(fmt.Sprintf("len(*%s) >= 1", n))
+			}
 			if u.Info()&types.IsInteger != 0 {
 				add(fmt.Sprintf("*%s > 0", n))
 				add(fmt.Sprintf("*%s >= 0", n))
 			}
+		}
+	}
+	// two captured slices indexed by the same counter: equal lengths
+	var slices []string
+	for _, fv := range f.FreeVars {
+		if pt, ok := fv.Type().(*types.Pointer); ok && constCell(fv) && token.IsIdentifier(fv.Name()) {
+			if _, ok := pt.Elem().Underlying().(*types.Slice); ok {
+				slices = append(slices, fv.Name())
+			}
+		}
+	}
+	for i := 0; i < len(slices) && len(slices) <= 4; i++ {
+		for j := i + 1; j < len(slices); j++ {
+			add(fmt.Sprintf("len(*%s) == len(*%s)", slices[i], slices[j]))
 		}
 	}
 	e.autoPre[name] = out
@@ -1547,7 +1641,7 @@ func (e *Engine) autoCands(f *ssa.Function) []*autoCand {
 
 // closureInfer emits the candidate facts of closure f as "infer" obligations at its creation site.
 func (x *Exec) closureInfer(st *State, ins *ssa.MakeClosure, f *ssa.Function, binds []Value) {
-	if !x.eng.inferClosures || ins.Parent() != x.fx.fn || f.Parent() != x.fx.fn {
+	if !x.eng.inferClosures || x.fx.trial || ins.Parent() != x.fx.fn || f.Parent() != x.fx.fn {
 		return // only in the enclosing function's own verification (not in inlined copies)
 	}
 	cands := x.eng.autoCands(f)
@@ -1570,7 +1664,7 @@ func (x *Exec) closureInfer(st *State, ins *ssa.MakeClosure, f *ssa.Function, bi
 			sc := x.specCtx(st, st.heap, st.heap, env)
 			sc.lenient = true
 			g := sc.evalBool(c.E)
-			key := "closure:" + f.Name() + ":" + c.Text
+			key := "closure:" + f.Name() + ":" + strings.NewReplacer(">=", "ge", "==", "eq", "!=", "ne", ">", "gt").Replace(c.Text)
 			x.eng.oblige(x.fx, st, "infer", key, g, "candidate closure precondition of "+f.Name()+" (assumed by the closure only if proved here): "+c.Text, ins.Pos())
 			c.Obl = x.fx.name + "/infer/" + key
 		}()
